@@ -904,6 +904,10 @@ def _get_attribute(obj: Any, attr: str) -> Any:
     if is_private_attribute(attr):
         raise AttributeError("attempt to access private attribute '%s'" % attr)
     else:
+        static_attr = inspect.getattr_static(obj, attr, None)
+        if isinstance(static_attr, property) and not getattr(static_attr.fget, "_pyroExposed", False):
+            # don't run the getter of a property that isn't exposed
+            raise AttributeError("attempt to access unexposed attribute '%s'" % attr)
         obj = getattr(obj, attr)
     if getattr(obj, "_pyroExposed", False):
         return obj
